@@ -54,7 +54,12 @@ def main():
         if ok_mk:
             cli = c.build_model_cli()
             if cli:
-                counts, mism, total = c.run_model(cli, "c09", casefile)
+                # extract/main.ml prints the model's None as "fail": hand it the recorded panics in that spelling
+                mfile = os.path.join(c.work, "cases_model.txt")
+                with open(casefile) as f, open(mfile, "w") as g:
+                    for line in f:
+                        g.write(line[:-len("= panic\n")] + "= fail\n" if line.endswith("= panic\n") else line)
+                counts, mism, total = c.run_model(cli, "c09", mfile)
                 if mism:
                     c.broken.append("Model/Stark.v disagrees with the implementation on %d cases, first: %s" % (total[1], mism[0][:300]))
     # debug build: the prover checks the constraints itself (check_constraints) and must refuse
